@@ -31,8 +31,16 @@ func ParseSipURI(uri string) (*SIPURI, error) {
 	} else {
 		return nil, errors.New("not a valid sip uri")
 	}
+	// find '@': the user part may contain ';' and '?' ( like in
+	// sip:+5521967014706;phone-context=ims.example.org@example.org;user=phone ), so it
+	// is cut off before the uri-parameters and the headers are looked for
+	pos := strings.IndexByte(s, '@')
+	if pos != -1 {
+		parseUserInfo(s[0:pos], sipUri)
+		s = s[pos+1:]
+	}
 	// find '?'
-	pos := strings.IndexByte(s, '?')
+	pos = strings.IndexByte(s, '?')
 	if pos != -1 {
 		if err := parseUriHeader(s[pos+1:], sipUri); err != nil {
 			return nil, err
@@ -46,12 +54,6 @@ func ParseSipURI(uri string) (*SIPURI, error) {
 			return nil, err
 		}
 		s = s[0:pos]
-	}
-	//find '@'
-	pos = strings.IndexByte(s, '@')
-	if pos != -1 {
-		parseUserInfo(s[0:pos], sipUri)
-		s = s[pos+1:]
 	}
 	if err := parseHostPort(s, sipUri); err != nil {
 		return nil, err
